@@ -38,7 +38,23 @@ func c18Gen(r *rand.Rand) c18Req {
 		q.ctx, q.md, naddr = rbytes(r, 64), rbytes(r, 1024-r.Intn(80)), 1+r.Intn(12)
 	}
 	for k := naddr; k > 0; k-- {
-		q.addrs = append(q.addrs, fmt.Sprintf("/ip4/%d.%d.%d.%d/tcp/%d", 1+r.Intn(200), r.Intn(256), r.Intn(256), r.Intn(256), 1+r.Intn(65535)))
+		a := fmt.Sprintf("/ip4/%d.%d.%d.%d/tcp/%d", 1+r.Intn(200), r.Intn(256), r.Intn(256), r.Intn(256), 1+r.Intn(65535))
+		// (the kinds of address providers register: HTTP endpoints, websockets, QUIC, DNS names, with a peer ID)
+		switch r.Intn(8) {
+		case 0:
+			a += "/http"
+		case 1:
+			a += "/https"
+		case 2:
+			a += "/ws"
+		case 3:
+			a = fmt.Sprintf("/ip4/%d.%d.%d.%d/udp/%d/quic-v1", 1+r.Intn(200), r.Intn(256), r.Intn(256), r.Intn(256), 1+r.Intn(65535))
+		case 4:
+			a = fmt.Sprintf("/dns4/provider%d.example.net/tcp/443/https", r.Intn(100))
+		case 5:
+			a += "/p2p/12D3KooWHHzSeKaY8xuZVzkLbKFfvNgPPeKhFBGrMbNzbm5akpqu"
+		}
+		q.addrs = append(q.addrs, a)
 	}
 	return q
 }
